@@ -237,7 +237,10 @@ def check_unit(spec_path, do_twins=True, keep=True):
                 auto_lets.setdefault(idx, []).insert(0, (name, stmt))
                 added = True
         # ... and to free helper functions of the same file the unit does not know: inlined at their call sites
-        for name in sorted(set(re.findall(r"cannot find function `([a-z_][a-z0-9_]*)` in this scope", r["stderr"]))):
+        for name in sorted(set(re.findall(r"cannot find function `([a-z_][a-z0-9_]*)` in this scope", r["stderr"])
+                               + re.findall(r"no method named `([a-z_][a-z0-9_]*)` found", r["stderr"])
+                               + re.findall(r"no function or associated item named `([a-z_][a-z0-9_]*)` found", r["stderr"])
+                               + re.findall(r"no variant, associated function, or constant named `([a-z_][a-z0-9_]*)` found", r["stderr"]))):
             if name not in inlines:
                 inlines.append(name)
                 added = True
